@@ -9,6 +9,13 @@
 #ifndef CHAN
 #define CHAN 4
 #endif
+#ifndef TONE
+#define TONE 60
+#endif
+
+// external linkage: clang must not fold exp(k*TONE) to a constant at compile time (the harness has to
+// obtain the same stub value as the code under test); the solver still sees the concrete initialiser
+double verif_tone = (double)(TONE);
 
 static void sym_timbre(OpnTimbre &t)
 {
@@ -39,7 +46,11 @@ static OPN2 *setup(OPN2_MIDIPlayer *&dev, OpnTimbre &t)
     dev = opn2_init(44100);
     VASSUME(dev != NULL);
     OPN2 *synth = player_of(dev)->m_synth.get();
-    synth->m_chipFamily = (nondet_uchar() & 1) ? OPNChip_OPNA : OPNChip_OPN2;
+#ifdef FAMILY_OPNA
+    synth->m_chipFamily = OPNChip_OPNA;
+#else
+    synth->m_chipFamily = OPNChip_OPN2;
+#endif
     sym_timbre(t);
     synth->m_insCache[CHAN] = t;
     return synth;
@@ -49,8 +60,11 @@ extern "C" void harness_fnum(void)
 {
     OPN2_MIDIPlayer *dev; OpnTimbre t;
     OPN2 *synth = setup(dev, t);
-    double tone = nondet_double();
-    VASSUME(tone >= -200.0 && tone <= 400.0);          // finite tones around the MIDI range
+    // The tone is CONCRETE per obligation (TONE): noteOn depends on it only through e = exp(k*tone), and
+    // the exp stub returns every value of an enclosure that is many semitones wide, so a handful of tones
+    // sweeps the whole frequency axis while k*tone constant-folds (a symbolic tone adds two 64-bit FP
+    // multiplications and the queries no longer finish).
+    double tone = verif_tone;
     double coef = synth->m_chipFamily == OPNChip_OPNA ? 309.12412 : 321.88557;
     double h0 = coef * exp(0.057762265 * tone);        // the value noteOn will see (memoised stub)
     VASSUME(h0 < 2036.75 * 128.0);                     // inside the chip's native range (no multiplier trick)
@@ -60,10 +74,17 @@ extern "C" void harness_fnum(void)
     VASSERT(g_tap.bad == 0, "every register write addresses an existing chip/port/register");
     VASSERT(g_tap.writes == writes0 + 7, "noteOn writes 4 multiplier registers, A4, A0 and key-on");
     VASSERT((g_tap.reg[CHAN / 6][(CHAN % 6) / 3][0xA4 + CHAN % 3] & 0xC0) == 0, "block/F-number fits 14 bits");
-    // F-number * 2^block is the frequency in block-0 units, within half an F-number step of the real value
-    double scale = (double)(1u << s.block);
-    double got = (double)s.fnum * scale;
-    VASSERT(got >= h0 - 0.5 * scale - 1e-9 * h0 && got <= h0 + 0.5 * scale + 1e-9 * h0, "programmed F-number*2^block within half a step of coef*exp(k*tone)");
+    // F-number * 2^block is the frequency in block-0 units, within half an F-number step of the real value:
+    // fnum == round(h0 / 2^block); written per block with constant power-of-two factors (exact in binary FP)
+    static const double inv[8] = { 1.0, 0.5, 0.25, 0.125, 0.0625, 0.03125, 0.015625, 0.0078125 };
+    bool ok = false;
+    for(unsigned b = 0; b < 8; b++)
+        if(s.block == b)
+        {
+            double scaled = h0 * inv[b];
+            ok = (double)s.fnum >= scaled - 0.5 && (double)s.fnum <= scaled + 0.5;
+        }
+    VASSERT(ok, "programmed F-number within half a step of coef*exp(k*tone)/2^block");
     VASSERT(s.block == 7 || (double)s.fnum < 1024.25, "lowest block that holds the frequency below 1023.75 is used");
     for(unsigned op = 0; op < 4; op++)
         VASSERT(s.mul[op] == t.OPS[op].data[0], "inside the native range the detune/multiple registers are the instrument's own");
@@ -75,26 +96,28 @@ extern "C" void harness_mono(void)
 {
     OPN2_MIDIPlayer *dev; OpnTimbre t;
     OPN2 *synth = setup(dev, t);
-    double t1 = nondet_double(), t2 = nondet_double();
-    VASSUME(t1 >= -200.0 && t2 <= 400.0 && t1 <= t2);
+    double t1 = verif_tone, t2 = verif_tone + 0.5;   // two tones, e1 <= e2 by the stub's monotonicity
     double coef = synth->m_chipFamily == OPNChip_OPNA ? 309.12412 : 321.88557;
     VASSUME(coef * exp(0.057762265 * t2) < 2036.75 * 128.0);
     synth->noteOn(CHAN, t1);
     Seen a; read_tap(a, CHAN);
     synth->noteOn(CHAN, t2);
     Seen b; read_tap(b, CHAN);
-    VASSERT((unsigned long)a.fnum << a.block <= (unsigned long)b.fnum << b.block, "programmed frequency is monotone in the tone");
+    // compare in F-number units of the coarser block (one step of tolerance for the rounding of the finer one)
+    unsigned long fa = (unsigned long)a.fnum << a.block, fb = (unsigned long)b.fnum << b.block;
+    unsigned long step = 1ul << (a.block > b.block ? a.block : b.block);
+    VASSERT(fa <= fb + step, "programmed frequency is monotone in the tone (within one F-number step)");
     VWITNESS();
 }
 
-// C02: any tone the API can produce: key/drum key (0..255) + note offset (int16) + bend (+-8192 * 127/8192 semitones) + vibrato
+// C02: tones over the whole range the API can produce (key/drum key + int16 note offset + bend*range +
+// vibrato, |tone| <= 40000), one concrete TONE per obligation with the exp stub's enclosure around it,
+// arbitrary timbre: register indices in range, the octave/multiplier search terminates.
 extern "C" void harness_safe(void)
 {
     OPN2_MIDIPlayer *dev; OpnTimbre t;
     OPN2 *synth = setup(dev, t);
-    double tone = nondet_double();
-    VASSUME(tone >= -40000.0 && tone <= 40000.0);
-    synth->noteOn(CHAN, tone);
+    synth->noteOn(CHAN, verif_tone);
     VASSERT(g_tap.bad == 0, "every register write addresses an existing chip/port/register");
     VWITNESS();
 }
